@@ -15,26 +15,28 @@
 (*              the one of a fresh evaluation                              *)
 (*   enabling the cache never changes a decision: decision = nc            *)
 (* A hit across different inputs with an unchanged decision is recorded as *)
-(* observation (harmless), not as violation.                               *)
+(* observation (harmless), not as violation; so is reuse across requests   *)
+(* that differ only in what the statement leaves open (rel = "open").      *)
 (***************************************************************************)
 EXTENDS CacheKey, Json, IOUtils, TLC, SequencesExt
 
 Trace == ndJsonDeserialize(IOEnv.VERIF_TRACE)
 OutFile == IOEnv.VERIF_OUT
 
-VARIABLES l, bad, store, cur, harmless, nexp, nontrivial
+VARIABLES l, bad, nbad, store, cur, harmless, nexp, nontrivial
 
-vars == <<l, bad, store, cur, harmless, nexp, nontrivial>>
+vars == <<l, bad, nbad, store, cur, harmless, nexp, nontrivial>>
 
 Ev(e) == [mech |-> e.mech, policy |-> e.policy, inputs |-> e.inputs]
 
 Reasons(e, exp, st) ==
+  IF e.c.rel = "open" THEN {} ELSE      \* left open by the statement: observation only
   (IF ~ReuseOK(exp, e.hit, e.remote) THEN {"no-reuse-when-equal"} ELSE {})
   \cup (IF ~NoCrossOK(exp, e.hit, e.decision = e.nc) THEN {"cross-reuse"} ELSE {})
   \cup (IF e.decision # e.nc /\ ~(e.hit /\ ~exp) THEN {"cache-changes-decision"} ELSE {})
   \cup (IF e.hit /\ st = {} THEN {"hit-on-empty-cache"} ELSE {})
 
-Init == l = 1 /\ bad = {} /\ store = {} /\ cur = <<"", 0>> /\ harmless = {} /\ nexp = 0 /\ nontrivial = {}
+Init == l = 1 /\ bad = {} /\ nbad = 0 /\ store = {} /\ cur = <<"", 0>> /\ harmless = {} /\ nexp = 0 /\ nontrivial = {}
 
 Next ==
   /\ l <= Len(Trace)
@@ -43,10 +45,13 @@ Next ==
          st == IF e.pos = 1 \/ cur # <<e.id, e.rep>> THEN {} ELSE store   \* a repetition starts with an empty cache
          exp == RefHit(st, Ev(e), 0, 0)
          rs == Reasons(e, exp, st)
-     IN /\ bad' = bad \cup {[id |-> e.id, rep |-> e.rep, pos |-> e.pos, reason |-> r] : r \in rs}
+     IN (* one record per (pair, reason): the repetitions are only counted, the state stays small *)
+        /\ bad' = bad \cup {[id |-> e.id, pos |-> e.pos, reason |-> r] : r \in rs}
+        /\ nbad' = IF rs = {} THEN nbad ELSE nbad + 1
         /\ store' = IF exp THEN st ELSE st \cup {[e |-> Ev(e), at |-> 0]}
         /\ cur' = <<e.id, e.rep>>
-        /\ harmless' = IF e.hit /\ ~exp /\ e.decision = e.nc THEN harmless \cup {e.id} ELSE harmless
+        /\ harmless' = IF (e.hit /\ ~exp /\ e.decision = e.nc) \/ (e.c.rel = "open" /\ e.pos = 2 /\ e.hit /\ e.decision # e.nc)
+                       THEN harmless \cup {e.id} ELSE harmless
         /\ nexp' = IF exp THEN nexp + 1 ELSE nexp
         /\ nontrivial' = IF e.c.rel # "equal" THEN nontrivial \cup {e.id} ELSE nontrivial
 
@@ -55,9 +60,10 @@ Spec == Init /\ [][Next]_vars
 Done ==
   /\ TLCGet("stats").diameter - 1 = Len(Trace)
   /\ JsonSerialize(OutFile, [lines |-> Len(Trace), bad |-> SetToSeq(TLCGet(1)), harmless |-> SetToSeq(TLCGet(2)),
-                             expected_hits |-> TLCGet(3), nontrivial |-> TLCGet(4)])
+                             expected_hits |-> TLCGet(3), nontrivial |-> TLCGet(4),
+                             rejected_evaluations |-> TLCGet(5)])
 
 Export == IF l = Len(Trace) + 1
-          THEN TLCSet(1, bad) /\ TLCSet(2, harmless) /\ TLCSet(3, nexp) /\ TLCSet(4, Cardinality(nontrivial))
+          THEN TLCSet(1, bad) /\ TLCSet(2, harmless) /\ TLCSet(3, nexp) /\ TLCSet(4, Cardinality(nontrivial)) /\ TLCSet(5, nbad)
           ELSE TRUE
 =============================================================================
